@@ -17,6 +17,9 @@ fn esc(s: &str) -> String {
 }
 
 fn main() {
+    if std::env::var("VERIF_TIER").as_deref() == Ok("thorough") {
+        vt::vshape::RICH.store(true, std::sync::atomic::Ordering::Relaxed);
+    }
     let what = std::env::args().nth(1).unwrap_or_default();
     let idx: usize = std::env::args().nth(2).and_then(|s| s.parse().ok()).unwrap_or(0);
     match what.as_str() {
